@@ -115,8 +115,17 @@ class C09(scen.WorldProp):
                 yield {"k": "world", "scenario": sc, "humans": humans, "style": rng.choice(["late", "late", "mixed"]),
                        "seed": rng.getrandbits(32), "lead": None, "server": True}
                 continue
-            sc = {"start": 1000.0, "end": end, "tower_size": N, "events": events,
-                  "on_join": scen.humans_on_join(humans),
+            N0, join_humans = N, humans
+            if lead is None and rng.random() < 0.2:
+                # the tower is bigger when Wheatley joins, and the ringer who holds the human bells also holds some
+                # of the bells that are then taken away: they keep the others
+                N0 = N + rng.choice([1, 2, 4])
+                join_humans = sorted(humans + [b for b in range(N + 1, N0 + 1) if rng.random() < 0.7] + [N0])
+                join_humans = sorted(set(join_humans))
+                events = events + [[t0 - rng.uniform(0.3, 0.8), "msg", {"m": "size_change", "size": N}]]
+                events.sort(key=lambda e: e[0])
+            sc = {"start": 1000.0, "end": end, "tower_size": N0, "events": events,
+                  "on_join": scen.humans_on_join(join_humans),
                   "bot": scen.bot_cfg(spec, up_down_in=udi),
                   "rhythm": scen.rhythm_cfg("wait", inertia=rng.choice([0.0, 0.5, 1.0]), peal_speed=ps)}
             yield {"k": "world", "scenario": sc, "humans": humans, "style": style, "seed": rng.getrandbits(32),
@@ -174,6 +183,9 @@ class C09(scen.WorldProp):
         if reply["crashed"] or reply["handler_crashes"]:
             return f"crash: main={reply['crashed']} handlers={reply['handler_crashes']}"
         N = sc["tower_size"]
+        for ev in sc["events"]:
+            if isinstance(ev[2], dict) and ev[2].get("m") == "size_change":
+                N = ev[2]["size"]
         humans = set(req["humans"])
         if req.get("second"):
             # each touch is judged on its own: strike counts restart when the bells have been set at hand
